@@ -167,17 +167,51 @@ func zzstub_NewInMemoryDB() (*DB, error) {
 }
 
 func zzstub_DB_Close(d *DB) error                         { return nil }
-func zzstub_DB_Get(d *DB, key []byte) ([]byte, bool)      { return zzmOf(d).get(key) }
-func zzstub_DB_Exist(d *DB, key []byte) bool              { _, ok := zzmOf(d).get(key); return ok }
-func zzstub_DB_Set(d *DB, key, value []byte)              { s := zzmOf(d); s.direct++; s.set(key, value) }
-func zzstub_DB_Del(d *DB, key []byte)                     { s := zzmOf(d); s.direct++; s.del(key) }
+
+// zzmMu: the database is a synchronised shared object (pebble locks internally). Every model operation
+// takes this mutex, which makes each database access a scheduling point of the cooperative scheduler
+// (a reader can run between a writer's in-memory update and its durable write) and orders the accesses
+// for the race monitor.
+var zzmMu sync.Mutex
+
+func zzstub_DB_Get(d *DB, key []byte) ([]byte, bool) {
+	zzmMu.Lock()
+	defer zzmMu.Unlock()
+	return zzmOf(d).get(key)
+}
+func zzstub_DB_Exist(d *DB, key []byte) bool {
+	zzmMu.Lock()
+	defer zzmMu.Unlock()
+	_, ok := zzmOf(d).get(key)
+	return ok
+}
+func zzstub_DB_Set(d *DB, key, value []byte) {
+	zzmMu.Lock()
+	defer zzmMu.Unlock()
+	s := zzmOf(d)
+	s.direct++
+	s.set(key, value)
+}
+func zzstub_DB_Del(d *DB, key []byte) {
+	zzmMu.Lock()
+	defer zzmMu.Unlock()
+	s := zzmOf(d)
+	s.direct++
+	s.del(key)
+}
 func zzstub_DB_Iterate(d *DB, prefix []byte, limit int, reverse bool) []KeyValue {
+	zzmMu.Lock()
+	defer zzmMu.Unlock()
 	return zzmOf(d).iterate(prefix, limit, reverse)
 }
 func zzstub_DB_IterateRange(d *DB, start, end []byte, limit int, reverse bool) []KeyValue {
+	zzmMu.Lock()
+	defer zzmMu.Unlock()
 	return zzmOf(d).iterateRange(start, end, limit, reverse)
 }
 func zzstub_DB_IterateKey(d *DB, prefix []byte, limit int, reverse bool) [][]byte {
+	zzmMu.Lock()
+	defer zzmMu.Unlock()
 	out := [][]byte{}
 	for _, kv := range zzmOf(d).iterate(prefix, limit, reverse) {
 		out = append(out, kv.Key())
@@ -195,6 +229,8 @@ func zzstub_DB_NewReader(d *DB) *Reader {
 	return r
 }
 func zzstub_DB_Write(d *DB, b *Batch) {
+	zzmMu.Lock()
+	defer zzmMu.Unlock()
 	s := zzmOf(d)
 	s.writes++
 	s.batch = b
